@@ -10,6 +10,9 @@ import verif_sink  # noqa: E402
 
 
 def td(v):
+    if isinstance(v, int) and not isinstance(v, bool) and v.bit_length() > 12000:     # beyond the int->str digit limit
+        import hashlib
+        return ["int", "hex:" + hashlib.sha1(hex(v).encode()).hexdigest()]
     if isinstance(v, (list, tuple)):
         return [type(v).__name__] + [td(x) for x in v]
     if isinstance(v, dict):
